@@ -32,6 +32,10 @@ type ChanCaster[C chan V, V any] struct {
 	// "is sending" information embedded in said value, and having two copies
 	// of the number of receivers makes invariant and overflow checks easier.
 	state atomic.Uint64
+	// broken is set before any panic caused by a state invariant violation,
+	// and makes that violation permanent: the state word alone cannot, as a
+	// later (also invalid) add may happen to move it back into a valid state.
+	broken atomic.Bool
 }
 
 // NewChanCaster is a factory for [ChanCaster] that exists solely for the
@@ -51,6 +55,10 @@ func NewChanCaster[C chan V, V any](channel C) *ChanCaster[C, V] {
 //
 // See [ChanCaster.Add] for usage details.
 func (x *ChanCaster[C, V]) Send(value V) int {
+	if x.broken.Load() {
+		panic(`bigbuff: chancaster: send: state invariant violation`)
+	}
+
 	if x.state.Load() == 0 {
 		return 0 // no receivers (fast path)
 	}
@@ -74,6 +82,7 @@ func (x *ChanCaster[C, V]) Send(value V) int {
 		receivers = uint32(state >> 32) // initialize from hi
 		tracker = uint32(state)         // initialize from lo
 		if tracker != receivers || receivers > math.MaxInt32 {
+			x.broken.Store(true)
 			panic(`bigbuff: chancaster: send: state invariant violation`)
 		}
 
@@ -98,6 +107,7 @@ func (x *ChanCaster[C, V]) Send(value V) int {
 	if tracker > receivers ||     // receivers should be unchanged or decreased (and also lower than math.MaxInt32)
 		uint32(state) != tracker+math.MaxInt32 || // lo still exactly math.MaxInt32 more than hi
 		!x.state.CompareAndSwap(state, 0) { // failing this indicates one or more unregistered receivers
+		x.broken.Store(true)
 		panic(`bigbuff: chancaster: send: state invariant violation`)
 	}
 
@@ -130,6 +140,10 @@ func (x *ChanCaster[C, V]) Send(value V) int {
 // necessary, as described above.
 func (x *ChanCaster[C, V]) Add(delta int) int {
 	const maxReceivers = math.MaxInt32
+
+	if x.broken.Load() {
+		panic(`bigbuff: chancaster: add: state invariant violation`)
+	}
 
 	switch {
 	case delta >= 0:
@@ -187,5 +201,6 @@ func (x *ChanCaster[C, V]) Add(delta int) int {
 	}
 
 	// invariant violation, e.g. due to OoB add, or previous violation
+	x.broken.Store(true)
 	panic(`bigbuff: chancaster: add: state invariant violation`)
 }
